@@ -741,8 +741,42 @@ def rand_basis(rnd, maxlen):
     return B
 
 
+def layered_like(rnd, n):
+    """Direct sum of decreasing blocks / skew sum of increasing blocks with a random (usually non-palindromic)
+    block sequence of sizes 1 and 2 - the shapes the two layered-type minimal classes are made of."""
+    sizes = []
+    while sum(sizes) < n:
+        sizes.append(min(rnd.choice([1, 2, 2]), n - sum(sizes)))
+    skew = rnd.random() < 0.5
+    out, lo = [], 0
+    if not skew:
+        for sz in sizes:                       # layered: blocks increase, each block decreasing
+            out += list(range(lo + sz - 1, lo - 1, -1))
+            lo += sz
+    else:
+        hi = n
+        for sz in sizes:                       # skew sum of increasing blocks
+            out += list(range(hi - sz, hi))
+            hi -= sz
+    return tuple(out)
+
+
 def record_trace(ctx, memo, rnd, nv, nsym, ncount):
     events = []
+    # a long structured permutation first, then its symmetric images in the same process (per-permutation memo
+    # entries of related permutations must not influence each other)
+    fillers = [[(0, 1, 2), (1, 0, 2)], [(2, 1, 0), (1, 2, 0)], [(0, 2, 1)], []]
+    for i in range(max(6, nsym)):
+        q = layered_like(rnd, rnd.choice([6, 6, 7]))
+        B = [Perm(x) for x in fillers[i % len(fillers)]] + [Perm(q)]
+        g = ("inv", "inv", "rev", "comp", "r1", "anti")[i % 6]
+        img = [REAL_SYM[g](p) for p in B]
+        v = verdicts_of(lambda: list(B))
+        vi = verdicts_of(lambda: list(img))
+        if any(x is None for x in list(v.values()) + list(vi.values())):
+            ctx.violation({"kind": "event", "basis": [list(p) for p in B], "g": g}, "NoException", "verdicts", [v, vi])
+            continue
+        events.append({"op": "Sym", "g": g, "basis": [list(p) for p in B], "image": [list(p) for p in img], "v": v, "vimg": vi})
     forms = ("list", "tuple", "set", "frozenset", "generator", "iterator", "map", "Basis")
     for i in range(nv):
         B = rand_basis(rnd, 7)
